@@ -10,6 +10,7 @@ import (
 	"path/filepath"
 	"sort"
 	"strings"
+	"time"
 
 	"go.etcd.io/bbolt"
 
@@ -78,6 +79,23 @@ func ops() []opT {
 		}},
 		{"create s (other type)", func(ctx context.Context, st state.State) error {
 			return st.Create(ctx, conformance.NewStrResource(hx.NS, "s", strings.Repeat("payload-", 1200))) // > 2 pages: multi-page write
+		}},
+		{"update a (freshly built object carrying only version and owner)", func(ctx context.Context, st state.State) error {
+			cur, err := getInt(ctx, st, "a")
+			if err != nil {
+				return err
+			}
+			// a caller that does not round-trip the object it read: its own creation/update times are whatever
+			// its constructor stamped, the store must keep the real creation time (also on disk)
+			r := conformance.NewIntResource(hx.NS, "a", cur.Value()+10)
+			r.Metadata().SetVersion(cur.Metadata().Version())
+			r.Metadata().SetPhase(cur.Metadata().Phase())
+			for _, f := range *cur.Metadata().Finalizers() {
+				r.Metadata().Finalizers().Add(f)
+			}
+			r.Metadata().SetCreated(time.Unix(1, 0))
+			r.Metadata().Labels().Set("fresh", "1")
+			return st.Update(ctx, r, state.WithUpdateOwner(cur.Metadata().Owner()), state.WithExpectedPhaseAny())
 		}},
 	}
 }
@@ -788,7 +806,7 @@ func build(tier string) []explore.Scenario {
 			out = append(out, firstUseScenario(a, b, fb))
 		}
 	}
-	hists := [][]int{{0, 1, 2, 3}, {0, 4, 2, 3}, {4, 0, 3, 0}, {0, 1, 4, 5}, {5, 0, 2, 4}, {0, 3, 0, 1}}
+	hists := [][]int{{0, 1, 2, 3}, {0, 4, 2, 3}, {4, 0, 3, 0}, {0, 1, 4, 5}, {5, 0, 2, 4}, {0, 3, 0, 1}, {0, 6, 1, 6}}
 	if tier == "thorough" {
 		hists = nil
 		var rec func(h []int)
@@ -800,7 +818,7 @@ func build(tier string) []explore.Scenario {
 			if len(h) == 4 {
 				return
 			}
-			for o := 0; o < 6; o++ {
+			for o := 0; o < 7; o++ {
 				if valid(append(append([]int{}, h...), o)) {
 					rec(append(h, o))
 				}
@@ -854,6 +872,10 @@ func valid(h []int) bool {
 				return false
 			}
 			b = true
+		case 6:
+			if !a {
+				return false
+			}
 		case 5:
 			if s {
 				return false
